@@ -210,7 +210,7 @@ prop(
 prop(
     "C06",
     anchor_modules=ENGINE_MODS,
-    rules=[E.rule_O2, E.rule_F2, G.rule_M1],
+    rules=[E.rule_O2, E.rule_F2, G.rule_M1, P.rule_P3],
     controls=[K.ctl_drop_ctx_copy],
     explanation=(
         "Decides one clause: isolation of the context store. A stored context delta is never "
@@ -366,11 +366,12 @@ prop(
 prop(
     "C14",
     anchor_modules=["composers.native", "graphing", "specs.native.v1.models"],
-    rules=[OR.rule_N2],
-    controls=[K.ctl_unsorted_start_tasks],
+    rules=[OR.rule_N2, P.rule_P7],
+    controls=[K.ctl_unsorted_start_tasks, K.ctl_join_threshold],
     explanation=(
         "Decides one clause: the composed graph does not depend on the declaration order of "
-        "tasks. Every TaskMappingSpec method the composer uses (transitively) either does not "
+        "tasks, and the barrier attribute is composed exactly for join tasks ('*' iff join: all, "
+        "else the declared count, stored unchanged by the graph) (P7). Every TaskMappingSpec method the composer uses (transitively) either does not "
         "iterate the task mapping or returns a value that is sorted by task name / is a boolean "
         "or a count, and the composer iterates only those sorted results and its own queue; the "
         "graph is restored as a directed multigraph (call fact). NOT decided: exactness of nodes "
